@@ -48,6 +48,14 @@ func (ti timerImpl) ownEntry(v ssa.Value) bool {
 			return true
 		}
 	}
+	// a field of the per-timer record the goroutine runs on (`w.te` with w the receiver)
+	if u, ok := v.(*ssa.UnOp); ok && u.Op == token.MUL {
+		if fa, isFA := u.X.(*ssa.FieldAddr); isFA {
+			if pr, isP := fa.X.(*ssa.Parameter); isP && len(pr.Parent().Params) > 0 && pr.Parent().Params[0] == pr && pr.Parent().Signature.Recv() != nil {
+				return true
+			}
+		}
+	}
 	return false
 }
 
@@ -106,8 +114,26 @@ func C17(c *Ctx) {
 		G := gfs[0]
 		E := emitCall[G]
 		c.R.Fn(fname(G))
+		// the emit may sit in an unexported helper that the firing function calls at one place: that call is then
+		// judged as the emit (and the helper's own code after the emit is judged too)
+		innerE := E
+		for depth := 0; depth < 2; depth++ {
+			if G.Parent() != nil || G.Object() == nil || G.Object().Exported() {
+				break
+			}
+			sites := callSitesOf(G, la.Fns)
+			if len(sites) != 1 {
+				break
+			}
+			cl, isCall := sites[0].(*ssa.Call)
+			if !isCall {
+				break // started with go (or deferred): G is the firing function itself
+			}
+			G, E = cl.Parent(), cl
+			c.R.Fn(fname(G))
+		}
 		// R2: not in a loop
-		c.R.Check(!flow.InCycle(E.Block()), "C17-R2", ti.name+": emit in no loop", c.pos(E), "executed at most once per goroutine", "the emit call is inside a loop: a timer can fire more than once")
+		c.R.Check(!flow.InCycle(E.Block()) && !flow.InCycle(innerE.Block()), "C17-R2", ti.name+": emit in no loop", c.pos(E), "executed at most once per goroutine", "the emit call is inside a loop: a timer can fire more than once")
 		// goroutine starts
 		ngo := 0
 		for _, f := range la.Fns {
@@ -350,27 +376,32 @@ func C17(c *Ctx) {
 		c.R.Check(okReval, "C17-R4", ti.name+": emit only if the map still holds this entry, which is released under the lock first", c.pos(E), "emit is dominated by 'map[id] == own entry' under the mutex, with the entry deleted on that edge", "the firing goroutine does not (under the mutex) check by identity that its entry is still the one in the map and remove it before firing: a cancelled timer can fire, and a timer re-created under the id can be mistaken for it: "+whyReval)
 		// emit not under the timers mutex (the handler may add or remove timers)
 		heldE := la.Held(E)
+		if hi := la.Held(innerE); hi[ti.lock] != lockset.None {
+			heldE = hi
+		}
 		c.R.Check(heldE[ti.lock] == lockset.None, "C17-R4", ti.name+": emit outside the timers mutex", c.pos(E), "held: "+heldE.String(), "the emitter is called with the timers mutex held: a handler that creates or cancels a timer deadlocks")
 		// ---- R5
-		after := flow.ReachableFrom(E.Block(), nil)
-		after[E.Block()] = true
 		bad := ""
-		for b := range after {
-			for _, in := range b.Instrs {
-				if b == E.Block() && flow.Index(in) <= flow.Index(E) {
-					continue
-				}
-				switch x := in.(type) {
-				case *ssa.MapUpdate:
-					if ti.isMap(x.Map) {
-						bad = c.pos(in)
+		for _, E := range []*ssa.Call{E, innerE} {
+			after := flow.ReachableFrom(E.Block(), nil)
+			after[E.Block()] = true
+			for b := range after {
+				for _, in := range b.Instrs {
+					if b == E.Block() && flow.Index(in) <= flow.Index(E) {
+						continue
 					}
-				case ssa.CallInstruction:
-					if bi, ok := x.Common().Value.(*ssa.Builtin); ok && bi.Name() == "delete" && ti.isMap(x.Common().Args[0]) {
-						bad = c.pos(in)
-					}
-					if sc := x.Common().StaticCallee(); sc != nil && (sc.Name() == "Rem" || sc.Name() == "cancel" || sc.Name() == "Cancel") {
-						bad = c.pos(in)
+					switch x := in.(type) {
+					case *ssa.MapUpdate:
+						if ti.isMap(x.Map) {
+							bad = c.pos(in)
+						}
+					case ssa.CallInstruction:
+						if bi, ok := x.Common().Value.(*ssa.Builtin); ok && bi.Name() == "delete" && ti.isMap(x.Common().Args[0]) {
+							bad = c.pos(in)
+						}
+						if sc := x.Common().StaticCallee(); sc != nil && (sc.Name() == "Rem" || sc.Name() == "cancel" || sc.Name() == "Cancel") {
+							bad = c.pos(in)
+						}
 					}
 				}
 			}
@@ -691,7 +722,13 @@ func c17RequestContexts(c *Ctx) {
 	c.R.Extra["request_scoped_contexts_in_mcrew"] = nDerive
 	// non-vacuity: Timers.Add really ties the timer to its context
 	tied := false
-	for _, g := range ssau.WithAnon(add) {
+	var addFns []*ssa.Function
+	for _, g := range pkgClosure(add) {
+		if prog.PkgOf(g) == "cmd/mcrew" {
+			addFns = append(addFns, g) // Add, its literals, and the functions it starts or calls in the package
+		}
+	}
+	for _, g := range addFns {
 		ssau.Instrs(g, func(in ssa.Instruction) {
 			if cl, ok := in.(*ssa.Call); ok && cl.Common().IsInvoke() && cl.Common().Method.Name() == "Done" {
 				tied = true
